@@ -103,6 +103,30 @@ func makeUnsignedDesignateCommitteeNotaryTx(roleContract, committee, sharedTxDat
   ensures [C13] xcalls("rolemgmt.Contract.DesignateAsRoleUnsigned").len == old(xcalls("rolemgmt.Contract.DesignateAsRoleUnsigned")).len + 1
   ensures [C13] xcalls("rolemgmt.Contract.DesignateAsRoleUnsigned")[old(xcalls("rolemgmt.Contract.DesignateAsRoleUnsigned")).len] == ev_rolemgmt_Contract_DesignateAsRoleUnsigned(32, committee)
 
+// C13 (helper clause): which roles the procedure looks at to decide that a stage is already done. checkRole reads the
+// list designated for exactly the role it is asked about, once, and answers true only if every committee key is in it
+// (the membership test is the library's, its calls are logged); checkCommitteeRoles asks about P2PNotary (32) first and
+// NeoFSAlphabet (16) second and hands the two answers out in this order.
+func checkRole(role, roleContract, m, committee) (ok, err)
+  ensures [C13] xcalls("rolemgmt.ContractReader.GetDesignatedByRole").len == old(xcalls("rolemgmt.ContractReader.GetDesignatedByRole")).len + 1
+  ensures [C13] exists h Int :: xcalls("rolemgmt.ContractReader.GetDesignatedByRole")[old(xcalls("rolemgmt.ContractReader.GetDesignatedByRole")).len] == ev_rolemgmt_ContractReader_GetDesignatedByRole(role, h)
+  ensures [C13] forall j Int {xcalls("rolemgmt.ContractReader.GetDesignatedByRole")[j]} :: 0 <= j && j < old(xcalls("rolemgmt.ContractReader.GetDesignatedByRole")).len ==> xcalls("rolemgmt.ContractReader.GetDesignatedByRole")[j] == old(xcalls("rolemgmt.ContractReader.GetDesignatedByRole"))[j]
+  // a positive answer took one membership test per committee key
+  ensures [C13] isnil(err) && ok ==> xcalls("keys.PublicKeys.Contains").len == old(xcalls("keys.PublicKeys.Contains")).len + len(committee)
+  ensures [C13] !isnil(err) ==> !ok
+  loop 0
+    invariant 0 <= i && i <= len(committee)
+    invariant xcalls("rolemgmt.ContractReader.GetDesignatedByRole").len == old(xcalls("rolemgmt.ContractReader.GetDesignatedByRole")).len + 1
+    invariant exists h Int :: xcalls("rolemgmt.ContractReader.GetDesignatedByRole")[old(xcalls("rolemgmt.ContractReader.GetDesignatedByRole")).len] == ev_rolemgmt_ContractReader_GetDesignatedByRole(role, h)
+    invariant forall j Int {xcalls("rolemgmt.ContractReader.GetDesignatedByRole")[j]} :: 0 <= j && j < old(xcalls("rolemgmt.ContractReader.GetDesignatedByRole")).len ==> xcalls("rolemgmt.ContractReader.GetDesignatedByRole")[j] == old(xcalls("rolemgmt.ContractReader.GetDesignatedByRole"))[j]
+    invariant xcalls("keys.PublicKeys.Contains").len == old(xcalls("keys.PublicKeys.Contains")).len + i
+
+func checkCommitteeRoles(b, m, committee) (notary, alpha, err)
+  ensures [C13] isnil(err) ==> xcalls("rolemgmt.ContractReader.GetDesignatedByRole").len == old(xcalls("rolemgmt.ContractReader.GetDesignatedByRole")).len + 2
+  ensures [C13] isnil(err) ==> exists h Int :: xcalls("rolemgmt.ContractReader.GetDesignatedByRole")[old(xcalls("rolemgmt.ContractReader.GetDesignatedByRole")).len] == ev_rolemgmt_ContractReader_GetDesignatedByRole(32, h)
+  ensures [C13] isnil(err) ==> exists h Int :: xcalls("rolemgmt.ContractReader.GetDesignatedByRole")[old(xcalls("rolemgmt.ContractReader.GetDesignatedByRole")).len + 1] == ev_rolemgmt_ContractReader_GetDesignatedByRole(16, h)
+  ensures [C13] !isnil(err) ==> !notary && !alpha
+
 // C13 (helper clause): the committee signer of every Notary request built by the deployment procedure is the committee
 // majority multi-signature account: m = n - (n-1)/2 of the n committee keys (what the committee witness of the FS chain
 // verifies), for every committee size - the 2/3 rule of the Alphabet gives another account for n = 3, 5, 6, 7, ...
